@@ -315,7 +315,10 @@ func debugDump(w *World, ssaFn, pathsFn string, depth, visits int, cb bool, maxp
 		n := 0
 		t1 := time.Now()
 		np, err := Enumerate(w, f, Opts{MaxDepth: depth, MaxVisits: visits, Callbacks: cb,
-			Inline:  func(fn *ssa.Function) bool { n := funcName(fn); return !containsAny(n, derivationFns) && !containsAny(n, ni) },
+			Inline: func(fn *ssa.Function) bool {
+				n := funcName(fn)
+				return !containsAny(n, derivationFns) && !containsAny(n, ni)
+			},
 			PureFns: func(n string) bool { return containsAny(n, derivationFns) }}, func(p *Path) bool {
 			n++
 			if n <= maxp {
